@@ -72,6 +72,27 @@ var OptionFEs = []FE{
 	}},
 }
 
+// ReusedFEs are the strict front-ends on instances that live as long as the process and have seen every earlier
+// input of the workload (accepted, rejected, cut off by a reader): what is accepted and the position reported
+// must not depend on that history.
+var ReusedFEs = func() []FE {
+	var op oj.Parser
+	var gp gen.Parser
+	ov := oj.Validator{OnlyOne: true}
+	ot := oj.Tokenizer{}
+	ot.OnlyOne = true
+	return []FE{
+		{"oj.Parser(reused).Parse", false, func(x []byte, _ jsongen.Plan) error { _, e := op.Parse(x); return e }},
+		{"oj.Parser(reused).ParseReader", true, func(x []byte, pl jsongen.Plan) error { _, e := op.ParseReader(pl.Reader(x)); return e }},
+		{"gen.Parser(reused).Parse", false, func(x []byte, _ jsongen.Plan) error { _, e := gp.Parse(x); return e }},
+		{"gen.Parser(reused).ParseReader", true, func(x []byte, pl jsongen.Plan) error { _, e := gp.ParseReader(pl.Reader(x)); return e }},
+		{"oj.Validator(reused).Validate", false, func(x []byte, _ jsongen.Plan) error { return ov.Validate(x) }},
+		{"oj.Validator(reused).ValidateReader", true, func(x []byte, pl jsongen.Plan) error { return ov.ValidateReader(pl.Reader(x)) }},
+		{"oj.Tokenizer(reused).Parse", false, func(x []byte, _ jsongen.Plan) error { return ot.Parse(x, &oj.ZeroHandler{}) }},
+		{"oj.Tokenizer(reused).Load", true, func(x []byte, pl jsongen.Plan) error { return ot.Load(pl.Reader(x), &oj.ZeroHandler{}) }},
+	}
+}()
+
 // Pos extracts line and column from a ParseError.
 func Pos(err error) (line, col int, ok bool) {
 	var pe *oj.ParseError
